@@ -1,6 +1,7 @@
 from sqlfluff.core.parser import BaseSegment
 
 from sqllineage.core.holders import StatementLineageHolder
+from sqllineage.core.models import Table
 from sqllineage.core.parser.sqlfluff.extractors.base import BaseExtractor
 from sqllineage.utils.entities import AnalyzerContext
 
@@ -27,6 +28,12 @@ class RenameExtractor(BaseExtractor):
             if table := self.find_table(t):
                 tables.append(table)
         keywords = [t for t in statement.segments if t.type == "keyword"]
+        for action in statement.get_children("alter_table_action_segment"):
+            # redshift: ALTER TABLE tab RENAME TO new_name puts a bare new name one level down, as a plain identifier
+            tokens = [t for t in action.segments if t.is_code]
+            if len(tokens) == 3 and [t.raw_upper for t in tokens[:2]] == ["RENAME", "TO"]:
+                keywords.append(tokens[0])
+                tables.append(Table(tokens[2].raw))
         if any(k.raw_upper == "RENAME" for k in keywords) and len(tables) % 2 == 0:
             for i in range(0, len(tables), 2):
                 holder.add_rename(tables[i], tables[i + 1])
